@@ -83,22 +83,27 @@ def observe(c):
 
 
 # ---------------------------------------------------------------- shards
-def _shard(n, alpha, s_bits, family, merge, max_states):
+def _shard(n, alpha, s_bits, family, merge, max_states, validate_every=997):
     return {'family': family, 'n': n, 'alphabet': list(alpha), 'S_bit_periods': s_bits, 'S': s_bits * 2 * n,
-            'merge_stale_v': merge, 'max_states': max_states}
+            'merge_stale_v': merge, 'max_states': max_states, 'validate_every': validate_every}
 
 
 def shards(tier):
+    import itertools
     out = []
     if tier == 'quick':
         for n in (2, 3):
-            out.append(_shard(n, Q_ALPHA, 1, 'alphabet6', False, 400000))
+            out.append(_shard(n, Q_ALPHA, 1, 'alphabet6', False, 400000, validate_every=97))
         return out
     for n in (2, 3, 4, 5, 6, 8):
-        # arbitrary sequences over the 16-value alphabet, short stalls
+        # (a) arbitrary sequences over the 16-value alphabet, short stalls
         out.append(_shard(n, T_ALPHA, 1, 'alphabet16', True, 1500000))
-        # arbitrary sequences over the 6-value alphabet, stalls up to 8 bit periods
-        out.append(_shard(n, Q_ALPHA, 8, 'alphabet6_longstall', True, 2500000))
+        # (b) stalls up to 8 bit periods: the graph grows with n^2 * |alphabet|^2.75, so the alphabet is sliced for n >= 5
+        if n <= 4:
+            out.append(_shard(n, Q_ALPHA, 8, 'alphabet6_longstall', True, 1500000))
+        else:
+            for pair in itertools.combinations(Q_ALPHA, 2):
+                out.append(_shard(n, pair, 8, 'pairs_of_alphabet6_longstall', True, 1500000))
     for b in range(256):
         nb = ~b & 0xFF
         if b < nb:      # {b, ~b} and {~b, b} are the same alphabet: 128 shards cover all 256 values
@@ -115,8 +120,9 @@ BOUNDS = {
              'idle gaps incl. none; consumer stalls of at most one bit period once a byte is pending, unconstrained otherwise; '
              '<= 2 bytes outstanding; reachable product graph closed, full state key',
     'thorough': 'n in {2, 3, 4, 5, 6, 8}: (a) all sequences over the 16-value alphabet (single-bit bytes, 00, FF, 55, AA, 0F, F0, '
-                '7E, 81) with stalls <= 1 bit period; (b) all sequences over the 6-value quick alphabet with stalls <= 8 bit '
-                'periods; (c) at n = 2 all 256 byte values, each in the alphabet {b, ~b} (128 graphs), stalls <= 8 bit periods; '
+                '7E, 81) with stalls <= 1 bit period; (b) stalls <= 8 bit periods: all sequences over the 6-value quick alphabet for '
+                'n <= 4, all sequences over each of the 15 two-value sub-alphabets of it for n in {5, 6, 8}; (c) at n = 2 all 256 '
+                'byte values, each in the alphabet {b, ~b} (128 graphs), stalls <= 8 bit periods; '
                 'every graph closed unless reported capped; exploration continues past violating transitions (they are not '
                 'expanded) so the rest of the graph is still checked; stale deserializer v merged (see assumptions).  '
                 'Ratios n = 7 and n > 8, three or more distinct values outside the listed alphabets in one sequence, and stalls '
